@@ -161,7 +161,7 @@ Proof.
     split; [exact Hnew|]. split; [exact Hsnap|]. split; [exact Hq|]. split; [intros X; discriminate|intros x []]. }
   destruct (our_vaa e1) as [v|] eqn:Ev.
   2:{ exists e1. cbn [fst snd with_agg db]. split; [reflexivity|]. rewrite Ev. apply Hquiet. intros X; contradiction. }
-  destruct (Z.leb_spec (go_quorum (Z.of_nat (length (keys g)))) (Z.of_nat (length sg))) as [Hq|Hq]; cbn [andb].
+  destruct (local_quorum_reached_spec (go_quorum (Z.of_nat (length (keys g)))) (Z.of_nat (length sg))) as [Hq|Hq]; cbn [andb].
   2:{ exists e1. cbn [fst snd with_agg db]. split; [reflexivity|]. rewrite Ev. apply Hquiet. intros _ X. rewrite <- Hcnt' in X. lia. }
   destruct (submitted e1) eqn:Esub; cbn [negb].
   { exists e1. cbn [fst snd with_agg db]. split; [reflexivity|]. rewrite Ev, Esub. apply Hquiet. intros _ _. reflexivity. }
@@ -320,7 +320,7 @@ Proof.
       apply Forall_forall. intros y Hy. rewrite Forall_forall in K2. apply K2. apply (remove_nth_incl _ k). exact Hy.
   - unfold Processor.handle_inbound. destruct (unmarshal b); [|constructor; assumption]. destruct (cur st); [|constructor; assumption].
     destruct (_ =? _)%nat; [constructor; assumption|]. destruct (_ =? _)%nat; [constructor; assumption|].
-    destruct (_ <? _); [constructor; assumption|]. destruct (verify_sigs _ _ _ _); cbn [negb]; [|constructor; assumption].
+    destruct (proc_inbound_below_quorum _ _); [constructor; assumption|]. destruct (verify_sigs _ _ _ _); cbn [negb]; [|constructor; assumption].
     destruct (dlookup _ _); constructor; cbn [fst agg loopq]; assumption.
   - unfold Processor.handle_cleanup. destruct (cleanup_all_inv2 st (clock st + 1) (loopq st) (agg st) K1 K3) as [A B].
     destruct (cleanup_all _ _ _) as [a o]. cbn [fst] in *. constructor; cbn [with_agg agg loopq]; assumption.
@@ -428,7 +428,7 @@ Proof.
   - eapply handle_obs_keys; eassumption.
   - destruct (nth_error _ _); [|exact ND]. eapply (handle_obs_keys O L); [destruct HI; constructor; assumption|exact ND].
   - unfold Processor.handle_inbound. destruct (unmarshal b); [|exact ND]. destruct (cur st); [|exact ND].
-    destruct (_ =? _)%nat; [exact ND|]. destruct (_ =? _)%nat; [exact ND|]. destruct (_ <? _); [exact ND|].
+    destruct (_ =? _)%nat; [exact ND|]. destruct (_ =? _)%nat; [exact ND|]. destruct (proc_inbound_below_quorum _ _); [exact ND|].
     destruct (verify_sigs _ _ _ _); cbn [negb]; [|exact ND]. destruct (dlookup _ _); exact ND.
   - unfold Processor.handle_cleanup. pose proof (cleanup_all_keys st (clock st + 1) (agg st)) as Hk.
     assert (NoDup (map fst (fst (cleanup_all st (clock st + 1) (agg st))))).
@@ -510,7 +510,7 @@ Proof.
   - unfold Processor.handle_inbound in He'. apply Hsame.
     destruct (unmarshal b); [|cbn [fst] in He'; congruence]. destruct (cur st); [|cbn [fst] in He'; congruence].
     destruct (_ =? _)%nat; [cbn [fst] in He'; congruence|]. destruct (_ =? _)%nat; [cbn [fst] in He'; congruence|].
-    destruct (_ <? _); [cbn [fst] in He'; congruence|]. destruct (verify_sigs _ _ _ _); cbn [negb] in He'; [|cbn [fst] in He'; congruence].
+    destruct (proc_inbound_below_quorum _ _); [cbn [fst] in He'; congruence|]. destruct (verify_sigs _ _ _ _); cbn [negb] in He'; [|cbn [fst] in He'; congruence].
     destruct (dlookup _ _); cbn [fst agg] in He'; congruence.
   - unfold Processor.handle_cleanup in He'. destruct (cleanup_all st (clock st + 1) (agg st)) as [a o] eqn:Ec. cbn [fst with_agg agg] in He'.
     assert (Ha : a = fst (cleanup_all st (clock st + 1) (agg st))) by (rewrite Ec; reflexivity). rewrite Ha in He'.
